@@ -9,7 +9,7 @@ spec fn dview(s: DecoderState) -> DState {
 }
 
 // result of one header-state step, as the real functions report it
-spec fn step_matches(pre: DState, b: u8, p: Parameters, ret: Result<(DecoderState, usize)>, out: Seq<u8>) -> bool {
+spec fn step_matches(pre: DState, b: u8, p: Parameters, ret: DResult<(DecoderState, usize)>, out: Seq<u8>) -> bool {
     let (s1, o1) = dstep(pre, b, lim0(p), lim1(p));
     match ret {
         Ok((ds, n)) => n == 1 && dview(ds) == s1 && !(s1 is Fail) && out == o1,
@@ -80,7 +80,7 @@ proof fn lemma_split3(input0: Seq<u8>, done: Seq<u8>, inp: Seq<u8>, c: int)
 }
 
 // what decode_copy / decode_borrow promise, as one predicate
-spec fn decode_post(s0: DecoderState, input: Seq<u8>, p: Parameters, b0: Seq<u8>, b1: Seq<u8>, ret: Result<DecoderState>) -> bool {
+spec fn decode_post(s0: DecoderState, input: Seq<u8>, p: Parameters, b0: Seq<u8>, b1: Seq<u8>, ret: DResult<DecoderState>) -> bool {
     let (s, out) = drun(dview(s0), input, lim0(p), lim1(p));
     match ret {
         Ok(r) => !(s is Fail) && dview(r) == s && b1 == b0 + out,
